@@ -68,6 +68,8 @@ pub struct OpCtx {
 pub static NOCTX_CALLBACKS: std::sync::atomic::AtomicU64 = std::sync::atomic::AtomicU64::new(0);
 
 thread_local! {
+    /// the slot whose operation is executing on this thread (target of re-entrant calls)
+    pub static CUR_SLOT: std::cell::Cell<Option<*const (dyn crate::slots::Slot + 'static)>> = const { std::cell::Cell::new(None) };
     pub static OPCTX: RefCell<Option<OpCtx>> = const { RefCell::new(None) };
     pub static BUILDLOG: RefCell<BuildLog> = RefCell::new(BuildLog::default());
 }
@@ -185,7 +187,7 @@ fn note_violation(s: String) {
 
 fn finish_callback(act: Act) -> Result<(), InterpolateError> {
     match act {
-        Act::Ok => Ok(()),
+        Act::Ok | Act::Nest { .. } => Ok(()),
         Act::Err(tok) => {
             OPCTX.with(|c| {
                 if let Some(ctx) = c.borrow_mut().as_mut() {
@@ -203,6 +205,27 @@ fn finish_callback(act: Act) -> Result<(), InterpolateError> {
             panic!("stub-strategy-panic");
         }
     }
+}
+
+/// re-entrancy: issue `call` on the interpolator whose callback is running, with a context of its
+/// own, and record the outcome in the log of the outer operation
+fn do_nest(at: u32, call: &Call) {
+    let Some(slot) = CUR_SLOT.with(|c| c.get()) else { return };
+    let outer = OPCTX.with(|c| c.borrow_mut().take());
+    let Some(outer) = outer else { return };
+    let nested_ctx = OpCtx { query: crate::slots::query_of(call), plan: vec![], yield_mask: outer.yield_mask.rotate_right(17), check_acc: outer.check_acc, log: StubLog::default() };
+    OPCTX.with(|c| *c.borrow_mut() = Some(nested_ctx));
+    // Safety: see `slots::exec` - the slot outlives the operation whose callback we are in.
+    // `Slot::call` catches unwinds itself.
+    let mut out = unsafe { (*slot).call(call) };
+    if let Some(n) = OPCTX.with(|c| c.borrow_mut().take()) {
+        out.stub = n.log;
+    }
+    let mut outer = outer;
+    if outer.log.nested.len() < 16 {
+        outer.log.nested.push(Nested { at, call: call.clone(), out });
+    }
+    OPCTX.with(|c| *c.borrow_mut() = Some(outer));
 }
 
 fn range_probes(axis: &[u64]) -> Vec<f64> {
@@ -303,9 +326,15 @@ where
         // a failing strategy has typically written part of its target already (lane-by-lane
         // evaluation that meets a gap): on a planned error or panic the first half of the lanes is
         // written before failing
-        let n_write = if matches!(act, Act::Ok) { usize::MAX } else { (target.len() + 1) / 2 };
+        let n_write = if matches!(act, Act::Ok | Act::Nest { .. }) { usize::MAX } else { (target.len() + 1) / 2 };
+        if let Act::Nest { call: nc, write_first: false } = &act {
+            do_nest(call, nc);
+        }
         for (lane, t) in target.iter_mut().enumerate().take(n_write) {
             *t = enc(xb, 0, lane, call);
+        }
+        if let Act::Nest { call: nc, write_first: true } = &act {
+            do_nest(call, nc);
         }
         finish_callback(act)
     }
@@ -414,9 +443,15 @@ where
                 });
             }
         }
-        let n_write = if matches!(act, Act::Ok) { usize::MAX } else { (target.len() + 1) / 2 };
+        let n_write = if matches!(act, Act::Ok | Act::Nest { .. }) { usize::MAX } else { (target.len() + 1) / 2 };
+        if let Act::Nest { call: nc, write_first: false } = &act {
+            do_nest(call, nc);
+        }
         for (lane, t) in target.iter_mut().enumerate().take(n_write) {
             *t = enc(xb, yb, lane, call);
+        }
+        if let Act::Nest { call: nc, write_first: true } = &act {
+            do_nest(call, nc);
         }
         finish_callback(act)
     }
